@@ -1187,3 +1187,97 @@ func atLeastOneIteration(h *ssa.BasicBlock) bool {
 	}
 	return true
 }
+
+func init() { register("C28", "", ruleC28ef) }
+
+// ruleC28ef: (MP-C28e) replication status may only be skipped for the two documented reasons: every return of
+// GetSlaveStatus whose skip flag can be true is dominated by the no-privilege edge or by the empty-result edge;
+// (MP-C28f) the down-after period is consulted in every probe round: in each checker every path from the probe to an exit
+// (or to the next round) passes ShouldDownAfterNoAlive.
+func ruleC28ef(c *Ctx, r *Report) {
+	r.floor("MP-C28e", 1)
+	r.floor("MP-C28f", 4)
+	sf := c.statusFacts()
+	gss := c.Func("backend", "GetSlaveStatus")
+	noPriv := c.Func("mysql", "IsSQLNoPrivilegeErr")
+	if gss == nil || noPriv == nil || sf.probe == nil || sf.shouldDown == nil {
+		r.undecided("MP-C28e", "backend.GetSlaveStatus", "anchor", "-", "anchors not found")
+		return
+	}
+	gn := c.FuncName(gss)
+	var okEdges []CondEdge
+	for _, ci := range callsIn(gss, func(cc *ssa.CallCommon) bool { return callsFunc(cc, noPriv) }) {
+		for _, e := range condEdges(ci.(*ssa.Call)) {
+			if e.Val {
+				okEdges = append(okEdges, e)
+			}
+		}
+	}
+	allInstrs(gss, func(in ssa.Instruction) {
+		b, ok := in.(*ssa.BinOp)
+		if !ok || b.Op != token.EQL || !isIntConst(b.Y, 0) {
+			return
+		}
+		if call, ok := b.X.(*ssa.Call); ok {
+			if k := call.Call.StaticCallee(); k != nil && k.Name() == "RowNumber" {
+				for _, e := range condEdges(b) {
+					if e.Val {
+						okEdges = append(okEdges, e)
+					}
+				}
+			}
+		}
+	})
+	n := 0
+	for _, ret := range returnsOf(gss) {
+		vals, zero := retValues(ret, 0)
+		maybe := false
+		_ = zero
+		for _, v := range vals {
+			if t, isC := constBool(v); !isC || t {
+				maybe = true
+			}
+		}
+		if !maybe {
+			continue
+		}
+		n++
+		cons := fmt.Sprintf("skip-check#%d", n)
+		if edgesDominate(gss, okEdges, ret.Block()) {
+			r.ok("MP-C28e", gn, cons, c.Pos(exitPos(ret)), "replication status is skipped only without the privilege or when the status is empty (node is a master)")
+		} else {
+			r.viol("MP-C28e", gn, cons, c.Pos(exitPos(ret)), "the replication check can be skipped for a replica that reported its status: a stopped replication thread or excessive lag no longer marks it down")
+		}
+	}
+	if n == 0 {
+		r.undecided("MP-C28e", gn, "skip-check", c.Pos(gss.Pos()), "no return can skip the check")
+	}
+	for _, nm := range []string{"checkBackendMasterStatus", "checkWithNoRecovery", "checkWithHardRecovery", "checkWithGradualRecovery"} {
+		fn := c.backendMethod("Slice", nm)
+		if fn == nil {
+			r.undecided("MP-C28f", "(*backend.Slice)."+nm, "anchor", "-", "not found")
+			continue
+		}
+		name := c.FuncName(fn)
+		for _, ci := range callsIn(fn, func(cc *ssa.CallCommon) bool { return callsFunc(cc, sf.probe) }) {
+			again := false
+			exits := searchExits(fn, ci, nil, SearchOpts{Stop: func(in ssa.Instruction) bool {
+				if in == ci {
+					again = true
+					return true
+				}
+				cc := callCommon(in)
+				return cc != nil && callsFunc(cc, sf.shouldDown)
+			}})
+			if len(exits) == 0 && !again {
+				r.ok("MP-C28f", name, "probe->ShouldDownAfterNoAlive", c.Pos(ci.Pos()), "every probe round consults the down-after period before it can end")
+			} else {
+				var p []string
+				if len(exits) > 0 {
+					p = c.pathStrings(exits[0])
+				}
+				r.viol("MP-C28f", name, "probe->ShouldDownAfterNoAlive", c.Pos(ci.Pos()), "a probe round can end without consulting the down-after period: a node that has not passed a probe for longer than the period stays up", p...)
+			}
+		}
+	}
+}
